@@ -75,6 +75,9 @@ type schemaDef struct {
 	byName   map[string]*typeDef
 	query    string
 	mutation string
+	// the subscription root type: graphql.Execute on a subscription operation executes one event
+	// (executor.executeSubscriptionEvent) on the initial value
+	subscription string
 	// random schemas: the arguments of the pool fields (by field name: the same on every type
 	// that has the field); non-nil also means "the schema carries the standard input types"
 	poolArgs map[string][]argDef
@@ -188,6 +191,10 @@ func genSchema(r *rng.R) *schemaDef {
 	if r.Chance(1, 4) {
 		objNames = append(objNames, "M")
 		s.mutation = "M"
+	}
+	if r.Chance(1, 5) {
+		objNames = append(objNames, "T")
+		s.subscription = "T"
 	}
 	ifaceNames := []string{"I", "J", "K"}[:r.Intn(4)]
 	unionNames := []string{"U", "V"}[:r.Intn(3)]
@@ -381,6 +388,29 @@ func (g *docGen) leafFieldsOf(t *typeDef) []fieldDef {
 	return out
 }
 
+// singleRoot: exactly one root field (what a subscription operation may select)
+func (g *docGen) singleRoot(scope string, depth int) string {
+	t := g.s.byName[scope]
+	g.root = false
+	f := rng.Pick(g.r, t.fields)
+	bt := g.s.byName[f.ty.base()]
+	if bt.composite() && depth <= 0 {
+		if lf := g.leafFieldsOf(t); len(lf) > 0 {
+			f = rng.Pick(g.r, lf)
+			bt = g.s.byName[f.ty.base()]
+		}
+	}
+	g.budget--
+	rkey := "/" + f.name
+	argText := g.argsText(f.name, false, t)
+	g.argTexts[rkey] = argText
+	sel := f.name + argText
+	if bt.composite() {
+		sel += " {" + g.selSet(bt.name, depth-1, 3) + "}"
+	}
+	return sel
+}
+
 // selSet returns the inside of a selection set (without braces) for the given scope type.
 func (g *docGen) selSet(scope string, depth int, fragDepth int) string {
 	t := g.s.byName[scope]
@@ -540,6 +570,7 @@ type genDoc struct {
 	vars     map[string]interface{} // VariableValues handed to Execute
 	env      map[string]*bool       // coerced values of the declared variables (nil: an explicit null)
 	mutation bool
+	kw       string // query, mutation or subscription
 	opName   string // Request.OperationName
 }
 
@@ -563,12 +594,36 @@ func genDocument(r *rng.R, s *schemaDef, hostile bool) genDoc {
 	}
 	out := genDoc{vars: map[string]interface{}{}, env: map[string]*bool{}}
 	rootT := s.query
-	if s.mutation != "" && r.Chance(1, 2) {
+	out.kw = "query"
+	single := false
+	switch {
+	case s.mutation != "" && r.Chance(1, 2):
 		rootT = s.mutation
 		out.mutation = true
+		out.kw = "mutation"
 		g.root = false
+	case s.subscription != "" && r.Chance(1, 2):
+		// a subscription operation has exactly one root field (5.2.3.1); the hostile stream also more
+		rootT = s.subscription
+		out.kw = "subscription"
+		g.root = false
+		single = !hostile || r.Bool()
+	case hostile && r.Chance(1, 12):
+		// an operation type the schema has no root type for: "This schema cannot perform ..."
+		if s.mutation == "" && r.Bool() {
+			out.kw = "mutation"
+			g.root = false
+		} else if s.subscription == "" {
+			out.kw = "subscription"
+			g.root = false
+		}
 	}
-	body := g.selSet(rootT, r.Range(1, 4), 3)
+	var body string
+	if single {
+		body = g.singleRoot(rootT, r.Range(1, 4))
+	} else {
+		body = g.selSet(rootT, r.Range(1, 4), 3)
+	}
 	if hostile {
 		// selections validation would refuse: the executor is handed the parsed document directly
 		rt := s.byName[rootT]
@@ -624,8 +679,8 @@ func genDocument(r *rng.R, s *schemaDef, hostile bool) genDoc {
 	}
 	head := ""
 	switch {
-	case out.mutation:
-		head = "mutation"
+	case out.kw != "query":
+		head = out.kw
 	case len(decls) > 0 || r.Chance(1, 3):
 		head = "query"
 	}
@@ -647,11 +702,8 @@ func genDocument(r *rng.R, s *schemaDef, hostile bool) genDoc {
 	// several operations in one document, one of them selected by Request.OperationName
 	before, after := "", ""
 	if r.Chance(1, 4) {
-		kw := "query"
-		if out.mutation {
-			kw = "mutation"
-		}
-		head = kw + " Main" + strings.TrimPrefix(strings.TrimPrefix(head, "query"), "mutation")
+		kw := out.kw
+		head = kw + " Main" + strings.TrimPrefix(head, kw)
 		extras := []string{"query X1 {__typename}", "query X2 {zt: __typename}"}
 		if s.mutation != "" {
 			extras = append(extras, "mutation X3 {__typename}")
